@@ -367,6 +367,30 @@ def pointwise_cases(ctx):
                      f"{L.coq_vec(L.flat(v))}, {L.coq_vec(L.flat(r))})")
         metas.append(key)
         ctx.count("pointwise:" + kind, key)
+    # complex scalar on a REAL operand space (c * Identity(float64) is a ScaledIdentity whose scalar is complex although its
+    # input dtype is real): the closed-form views must still denote conj(c) I (conjugate, Hermitian), c I (transpose), |c|^2 I
+    for t in range(ctx.n(6, 40)):
+        c = ctx.rng.choice([1.5 + 2j, -0.5j, 2 - 0.25j, -1 + 1j])
+        x = L.rand_dyadic(ctx.rng, (n,), np.float64, bits=1, lo=-2, hi=2)
+        how = ctx.rng.choice(["ctor", "lmul", "rmul-div"])
+        view = ["conj", "H", "T", "gram_op", "self"][t % 5]
+        key = {"unit": "ScaledIdentity." + view, "construction": how, "c": str(c), "dtype": "float64 operand, complex scalar",
+               "x": repr(L.flat(x).tolist())}
+        try:
+            I3 = linop.Identity((n,), input_dtype=np.float64)
+            A = {"ctor": lambda: linop.ScaledIdentity(c, (n,), input_dtype=np.float64), "lmul": lambda: c * I3,
+                 "rmul-div": lambda: (I3 * (2 * c)) / 2.0}[how]()
+            B = {"conj": lambda: A.conj(), "H": lambda: A.H, "T": lambda: A.T, "gram_op": lambda: A.gram_op, "self": lambda: A}[view]()
+            sc = {"conj": np.conj(c), "H": np.conj(c), "T": c, "gram_op": complex(c.real * c.real + c.imag * c.imag), "self": c}[view]
+            r = B(x)
+        except Exception as ex:
+            ctx.violation(key["unit"], "a valid operator combination fails", key,
+                          observed=f"{type(ex).__name__}: {str(ex)[:200]}", oracle="evaluation")
+            continue
+        cases.append(f"(2%nat, {tol_lit(None)}, {L.cq_entry(complex(sc))}, {L.coq_vec(L.flat(x))}, {L.coq_vec(L.flat(x))}, "
+                     f"{L.coq_vec(L.flat(r))})")
+        metas.append(key)
+        ctx.count("pointwise:complex-scalar-on-real-space:" + view, key)
     # freeze / Function.slice / join
     from scico.function import Function
     for t in range(ctx.n(20, 200)):
